@@ -25,7 +25,7 @@ if [ -f "$T" ]; then
   if [ -n "$DIR" ] && [ -d "$DIR" ]; then
     cp "$T" "$DIR/zz_keep_test.go"
     OUT1=$(timeout 600 go test -vet=off -count=1 ./$DIR/ 2>&1); if echo "$OUT1" | grep -q "^ok"; then res "keep_test with change: pass"; else res "keep_test with change: FAIL"; echo "$OUT1" | tail -15 >> "$DST/confirm.log"; fi
-    git checkout -q -- .
+    git apply -R "$DST/patch.diff" 2>/dev/null || git checkout -q -- .
     OUT2=$(timeout 600 go test -vet=off -count=1 ./$DIR/ 2>&1); if echo "$OUT2" | grep -q "^ok"; then res "keep_test without change: pass"; else res "keep_test without change: FAIL"; echo "$OUT2" | tail -15 >> "$DST/confirm.log"; fi
     rm -f "$DIR/zz_keep_test.go"
   else
